@@ -1,10 +1,10 @@
 SPECIFICATION Spec
 CONSTANTS
-  N = 4
+  N = 2
   WithQueries = FALSE
-  WithMixed = FALSE
+  WithMixed = TRUE
   HeavyLaws = FALSE
   Mutant <- NoMutant
 VIEW View
-INVARIANT ImplRoutes
+INVARIANT Emit
 CHECK_DEADLOCK FALSE
